@@ -33,9 +33,21 @@ def parse_out(o):
         return {'unparsable': o[:300]}
 
 
+def canon_cells(x):
+    """JS numbers arrive as {"f": double}; map them to the exact small rational like the Python side does"""
+    if isinstance(x, list):
+        return [canon_cells(y) for y in x]
+    if isinstance(x, dict) and 'f' in x and len(x) == 1:
+        return qgen.value_to_cell(float(x['f'])) if x['f'] is not None else {'float': 'nan'}
+    return x
+
+
 def observable(d, fields=ALL_FIELDS):
     if not isinstance(d, dict):
         return d
+    if 'rows' in d and d['rows'] is not None:
+        d = dict(d)
+        d['rows'] = canon_cells(d['rows'])
     if d.get('err') is not None:
         return {'err': d['err']}
     return {k: d.get(k) for k in fields if k in d} if 'rows' in d else d
@@ -104,10 +116,10 @@ def shrink_candidates(case):
     return out
 
 
-def shrink(case, impl, fields, rounds=40):
+def shrink(case, impl, fields, rounds=40, valid=None):
     cur = case
     for _ in range(rounds):
-        cands = shrink_candidates(cur)
+        cands = [c for c in shrink_candidates(cur) if valid is None or valid(c)]
         if not cands:
             break
         lines = [make_line(c) for c in cands]
@@ -123,7 +135,7 @@ def shrink(case, impl, fields, rounds=40):
     return cur
 
 
-def run_cases(res, prop, cases, impl='py', rnd=None, fields=ALL_FIELDS, max_report=6, texts=None):
+def run_cases(res, prop, cases, impl='py', rnd=None, fields=ALL_FIELDS, max_report=6, texts=None, valid=None):
     """cases: list of dicts {q, A, B?, header_a?, header_b?}. Returns number of disagreements."""
     lines = [make_line(c, rnd, None if texts is None else texts[i]) for i, c in enumerate(cases)]
     r = compare(lines, impl, fields)
@@ -138,7 +150,7 @@ def run_cases(res, prop, cases, impl='py', rnd=None, fields=ALL_FIELDS, max_repo
             continue
         nbad += 1
         if nbad <= max_report:
-            small = shrink(c, impl, fields)
+            small = shrink(c, impl, fields, valid=valid)
             sl = make_line(small)
             (same2, pm2, po2), = compare([sl], impl, fields)
             if same2:   # the canonical respelling agrees: keep the original spelling
